@@ -8,5 +8,6 @@ git -C /repo checkout -- .
 rm -rf /verif/replays/$ID
 # rebuild against the restored tree so that the binaries never carry a seeded change
 (cd /verif/harness && cargo build --release --offline -p vcheck >/dev/null 2>&1; cargo build --release --offline -p fs_nowat >/dev/null 2>&1)
+[ "$ID" = "C20" ] && (cd /verif/harness && cargo build --release --offline -p c20reg >/dev/null 2>&1)
 [ "$ID" = "C19" ] && (cd /repo && CARGO_TARGET_DIR=/verif/harness/target/wac-cli cargo build --release --offline --bin wac >/dev/null 2>&1)
 true
